@@ -72,6 +72,7 @@ type Engine struct {
 	inInit      bool
 	SamplePaths int
 	Samples     []PathSample
+	spare       []*State // eligible completed paths not picked by the stride rule; used to fill Samples at the end
 	InitPoison  []string
 	Hooks       Hooks
 }
@@ -219,6 +220,20 @@ func (e *Engine) Explore(entry *ssa.Function, initPkgs []*ssa.Package) {
 		}()
 	}
 	wg.Wait()
+	if e.Aborted == "" {
+		for _, st := range e.spare {
+			if len(e.Samples) >= e.SamplePaths {
+				break
+			}
+			sol := e.Pool.Get()
+			m, ok := e.Model(sol, st)
+			e.Pool.Put(sol)
+			if ok {
+				e.Samples = append(e.Samples, PathSample{Model: m, Labels: append([]string(nil), st.Labels...), Path: st.ID})
+			}
+		}
+	}
+	e.spare = nil
 }
 
 func (e *Engine) runInit(st *State, p *ssa.Package) {
@@ -400,6 +415,9 @@ func (e *Engine) endPath(st *State, cut string) {
 	if cut == "" && e.SamplePaths > 0 && !st.NoReplay {
 		e.mu.Lock()
 		take := len(e.Samples) < e.SamplePaths && st.ID%7 == len(e.Samples)%7
+		if !take && len(e.spare) < e.SamplePaths {
+			e.spare = append(e.spare, st)
+		}
 		e.mu.Unlock()
 		if take {
 			sol := e.Pool.Get()
